@@ -98,6 +98,27 @@ def table() -> Dict[str, List[str]]:
   return _TABLE
 
 
+def raw_functions(src: str) -> Dict[str, ast.AST]:
+  """qualified name -> function node of the source as written (no canonical form: a local edit stays local)."""
+  out: Dict[str, ast.AST] = {}
+
+  def rec(node, prefix):
+    for ch in ast.iter_child_nodes(node):
+      if isinstance(ch, (ast.FunctionDef, ast.AsyncFunctionDef)):
+        q = prefix + ch.name
+        out.setdefault(q, ch)
+        rec(ch, q + '.')
+      elif isinstance(ch, ast.ClassDef):
+        rec(ch, prefix + ch.name + '.')
+      else:
+        rec(ch, prefix)
+  try:
+    rec(ast.parse(src), '')
+  except SyntaxError:
+    pass
+  return out
+
+
 def distance(relpath: str, qualname: str, fn_node: ast.AST) -> Optional[int]:
   """None when the function is not in the reference table (a new function)."""
   ref = table().get(f'{relpath}:{qualname}')
